@@ -159,7 +159,11 @@ func C14(c *Ctx) {
 				X, Y, Z, T := gen.ExtOf(m, lam)
 				vals := [4]*big.Int{X, Y, Z, T}
 				if fail {
-					switch r.Intn(4) {
+					switch r.Intn(6) {
+					case 4, 5: // passes the curve equation (squares only), fails XY = ZT
+						k := r.Intn(4)
+						vals[k] = ref.FNeg(vals[k])
+						why = "one coordinate negated"
 					case 0:
 						vals[3] = ref.FAdd(T, big.NewInt(1))
 						why = "T perturbed"
